@@ -129,6 +129,7 @@ package parser
 //@   ensures[C04 basic-unchanged] t.Name != ARRAY && t.Name != MAP ==> r == t
 //@   ensures[C04 empty-becomes-any] t == EMPTY_ARRAY || t == EMPTY_MAP ==> fresh(r) && r.Sub == ANY_TYPE && !r.Fixed
 //@   ensures[C04 composite-copied] (t.Name == ARRAY || t.Name == MAP) && t != EMPTY_ARRAY && t != EMPTY_MAP ==> fresh(r) && r.Fixed == t.Fixed && r.Sub != nil && r.Sub.Name == t.Sub.Name
+//@   ensures[C04 no-empty-literal-type-left] r != EMPTY_ARRAY && r != EMPTY_MAP && (r.Name == ARRAY || r.Name == MAP ==> r.Sub != EMPTY_ARRAY && r.Sub != EMPTY_MAP)
 //@   modifies nothing
 
 // ---- C03/C05: small parser helpers ----
